@@ -34,7 +34,7 @@ def check_history(run):
     info = parse_extra(run)
     evs = [e for e in run.events if e.kind != 0]
     unpublished = len(run.events) - len(evs)
-    caller = info["caller"]
+    concurrent = cfg.get("cmode", "0") != "0" and cfg.get("callers", "1") != "1"
     calls = {}
     rets = {}
     begins = defaultdict(list)
@@ -70,6 +70,7 @@ def check_history(run):
             out.append(V("C07", "broadcast_never_returned", "broadcast %d (n=%d) did not return" % (b, n), [calls[b]]))
             break
         c, r = calls[b], rets[b]
+        caller = c.tid          # the thread that issued this broadcast
         for idx in range(n + 1):
             bl, el = begins.get((b, idx), []), ends.get((b, idx), [])
             if len(bl) != 1 or len(el) != 1:
@@ -100,16 +101,16 @@ def check_history(run):
         if extra:
             out.append(V("C06", "index_out_of_range", "broadcast %d (n=%d) ran indices %s" % (b, n, sorted(extra))))
         max_n = max(max_n, n)
-        if len(workers_seen) != max_n:
+        if not concurrent and len(workers_seen) != max_n:
             out.append(V("C06", "worker_creation", "after broadcast %d: %d distinct workers seen, largest request so far %d" % (b, len(workers_seen), max_n)))
-        if b < len(info["tc"]) and info["tc"][b] != max_n:
+        if not concurrent and b < len(info["tc"]) and info["tc"][b] != max_n:
             out.append(V("C06", "pool_size", "after broadcast %d the pool holds %d threads, largest request so far %d" % (b, info["tc"][b], max_n)))
         if b in info["pe"]:
             exp = ["-" if (b, i) in panics else str(i) for i in range(n + 1)]
             if info["pe"][b] != exp:
                 out.append(V("C06", "results_order", "broadcast %d results %s, expected %s" % (b, info["pe"][b], exp)))
         # interleaving signature of this broadcast from the failpoint events
-        pts = [p for p in points.get(b, []) if p.seq < r.seq]
+        pts = [p for p in points.get(b, []) if p.seq < r.seq] if not concurrent else []
         parks = sum(1 for p in pts if p.tid == caller and p.a == 3 and p.b == 0)
         p2 = next((p for p in pts if p.tid == caller and p.a == 2 and p.b == 0), None)
         p13 = next((p for p in pts if p.a == 13 and p.b == 0), None)
@@ -127,6 +128,8 @@ def check_history(run):
     if info["workers"] is not None:
         if info["exited"] < info["workers"]:
             out.append(V("C07", "worker_leak", "%d of %d worker threads still alive after the pool was dropped (bounded wait)" % (info["workers"] - info["exited"], info["workers"])))
+        if concurrent and len(workers_seen) != max(hist or [0]):
+            out.append(V("C06", "worker_creation", "%d distinct workers ran tasks, the largest request was %d" % (len(workers_seen), max(hist or [0]))))
         if info["workers"] != len(workers_seen):
             out.append(V("C06", "worker_creation", "%d worker threads ran tasks, %d distinct ones in the log" % (info["workers"], len(workers_seen))))
     stats = {"broadcasts": len(rets), "task_calls": sum(len(v) for v in begins.values()), "workers": len(workers_seen),
